@@ -1,6 +1,6 @@
 (* Extraction of the C11 model and of the trigger predicate ns_fold (ExtrOcamlBasic only; N/nat stay Coq datatypes). *)
-From Verif Require Import Namespace NamespaceSpec Gen_Pin_c11tree Gen_Pin_c11path.
+From Verif Require Import Namespace NamespaceSpec Gen_Pin_c11tree Gen_Pin_c11path Gen_Pin_c11support.
 Require Extraction ExtrOcamlBasic.
 Extraction Language OCaml.
 Extraction "model.ml" build get_all_types get_all_datatypes get_all_namespaces find_output_path
-  include_path out_path ns_path relative_to_outdir keys get ns_fold same sort_keys build_checked pin_c11tree_stem_check pin_c11path_stem_validated.
+  include_path out_path ns_path relative_to_outdir keys get ns_fold same sort_keys build_checked pin_c11tree_stem_check pin_c11path_stem_validated support_targets pin_c11support_ns_validated.
